@@ -1315,11 +1315,14 @@ theorem exact_aggregate_core {n thr h c : Nat} {S : Nat → Prop} {d : Node}
     · simp only [hl, if_false]
       exact ⟨by simpa using h1, by simp, by simpa using h3, by simpa using h4, by simpa using h5, by simpa using hcl⟩
 
-theorem exact_first {n thr h c : Nat} {d : Node} (hl : Lvl h c [] d) (i : Nat) :
+theorem exact_first {n thr h c : Nat} {d : Node} (h1 : d.up = true) (h2 : d.head = h) (h3 : d.clock = c)
+    (h4 : d.lastTick = c) (h5 : d.pending = []) (h7 : ∀ r k, d.held r k = true → r = h + 1) (i : Nat) :
     Exact n thr h c (fun k => k = i) (d.aggregate n thr i (h + 1)) := by
-  have := exact_aggregate_core (n := n) (thr := thr) (S := fun _ => False) hl.up hl.head hl.clock hl.tick hl.pend
-    (fun r k hk => by rw [hl.clean r k] at hk; cases hk) (fun k hk => hk.elim) i
+  have := exact_aggregate_core (n := n) (thr := thr) (S := fun _ => False) h1 h2 h3 h4 h5 h7 (fun k hk => hk.elim) i
   exact this.weaken (fun k hk => Or.inr hk)
+
+theorem Lvl.stale {h c : Nat} {P : List Nat} {d : Node} (hl : Lvl h c P d) : ∀ r k, d.held r k = true → r = h + 1 := by
+  intro r k hk; rw [hl.clean r k] at hk; cases hk
 
 theorem exact_recvStep {n thr h c : Nat} {S : Nat → Prop} {d : Node} (hc : h < c) (hp : Exact n thr h c S d)
     (reach : Bool) (m : Msg) (hm : reach = true → m.round ≤ h + 1) :
@@ -1562,7 +1565,8 @@ theorem catch_sub (s : State) (U : List Nat) (h c : Nat) (hthr : s.thr ≤ U.len
   have hmsgs : (s.forAll State.fireNode).msgs = s.msgs ++ (List.range s.n).flatMap (fun i => (Node.fireSteps s.n s.thr i (s.node i).pending.length (s.node i)).2) := a5
   refine settle_exact (s.forAll State.fireNode) U h c (if 1 < s.thr then h else h + 1) (hU.ext hA) (by rw [hA.thr]; exact hthr) hc ?_ ?_ ?_ ?_
   · intro j hj; rw [hnode j hj]; exact agg_first_head (hl0 j hj) j (hU.lt j hj)
-  · intro j hj; rw [hnode j hj, hA.n, hA.thr]; exact exact_first (hl0 j hj) j
+  · intro j hj; rw [hnode j hj, hA.n, hA.thr]
+    exact exact_first (hl0 j hj).up (hl0 j hj).head (hl0 j hj).clock (hl0 j hj).tick (hl0 j hj).pend (hl0 j hj).stale j
   · intro m hm hd hcn
     rw [hmsgs, hch.msgs, List.nil_append] at hm
     obtain ⟨i, hi, hmi⟩ := List.mem_flatMap.mp hm
@@ -1579,14 +1583,27 @@ theorem catch_sub (s : State) (U : List Nat) (h c : Nat) (hthr : s.thr ≤ U.len
     rw [(fireNode_lvl (hch.lvl i hi) i).2]
     exact mem_others.mpr ⟨rfl, rfl, hU.lt j hj, fun e => hij e.symm⟩
 
-/-- a levelled, quiet healthy side just before a tick -/
+/-- a levelled, quiet healthy side just before a tick: all heads `h`, clocks about to show `c`, no catch-up goroutine
+asleep, nothing in flight; the partial caches are empty, or hold only partials of the stalled round `h + 1` (what the
+members re-broadcast at every tick of an outage) without any member being one own partial short of the threshold -/
 structure Start (s : State) (U : List Nat) (h c : Nat) : Prop where
   side : Side s U
   head : ∀ j ∈ U, (s.node j).head = h
   clock : ∀ j ∈ U, (s.node j).clock + 1 = c
   pend : ∀ j ∈ U, (s.node j).pending = []
-  clean : ∀ j ∈ U, ∀ r k, (s.node j).held r k = false
+  stale : ∀ j ∈ U, ∀ r k, (s.node j).held r k = true → r = h + 1
+  low : (∀ j ∈ U, ∀ r k, (s.node j).held r k = false) ∨
+        (∀ j ∈ U, count s.n (addPartial (s.node j).held (h + 1) j) (h + 1) < s.thr)
   msgs : s.msgs = []
+
+/-- a stale cache that the own partial does not complete: the node stays at `h` -/
+theorem agg_low_head {n thr h : Nat} {d : Node} (hh : d.head = h) (j : Nat)
+    (hlow : count n (addPartial d.held (h + 1) j) (h + 1) < thr) : (d.aggregate n thr j (h + 1)).head = h := by
+  rcases aggregate_cases n thr d j (h + 1) with ⟨_, he⟩ | ⟨_, _, he⟩ | ⟨_, _, hlt, _⟩ | ⟨hc4, _, _⟩
+  · rw [he]; exact hh
+  · rw [he]; exact hh
+  · omega
+  · omega
 
 theorem tickStep_lvl {n thr h c : Nat} {d : Node} (hu : d.up = true) (hcl : d.clock = c) (hh : d.head = h) (hc : h < c)
     (j : Nat) :
@@ -1608,27 +1625,34 @@ theorem tick_sub (s : State) (U : List Nat) (h c : Nat) (hthr : s.thr ≤ U.leng
   have hA : Ext s.advance (s.advance.forAll State.tick) := ext_forAll _ _ ext_tick
   have hts : ∀ j ∈ U, _ := fun j hj => tickStep_lvl (n := s.n) (thr := s.thr) (d := s.advance.node j) (hU.up j hj)
     (hst.clock j hj) (hst.head j hj) hc j
-  have hl0 : ∀ j ∈ U, Lvl h c [] ((s.advance.node j).setTick c) := fun j hj =>
-    ⟨hU.up j hj, hst.head j hj, hst.clock j hj, rfl, hst.pend j hj, hst.clean j hj⟩
   have hnode : ∀ j ∈ U, (s.advance.forAll State.tick).node j = (Node.tickStep s.n s.thr j (s.advance.node j)).1 := by
     intro j hj
     have := a4 j
     simp only [List.mem_range, show j < s.advance.n from hU.lt j hj, if_true] at this
     exact this
   have hmsgs : (s.advance.forAll State.tick).msgs = s.msgs ++ (List.range s.n).flatMap (fun i => (Node.tickStep s.n s.thr i (s.advance.node i)).2) := a5
-  have hres := settle_exact (s.advance.forAll State.tick) U h c (if 1 < s.thr then h else h + 1) (hU0.ext hA)
+  have hx : ∃ x, ∀ j ∈ U, (((s.advance.node j).setTick c).aggregate s.n s.thr j (h + 1)).head = x := by
+    rcases hst.low with hcl | hlow
+    · exact ⟨if 1 < s.thr then h else h + 1, fun j hj =>
+        agg_first_head (d := (s.advance.node j).setTick c)
+          ⟨hU.up j hj, hst.head j hj, hst.clock j hj, rfl, hst.pend j hj, hcl j hj⟩ j (hU.lt j hj)⟩
+    · exact ⟨h, fun j hj => agg_low_head (d := (s.advance.node j).setTick c) (hst.head j hj) j (hlow j hj)⟩
+  obtain ⟨x, hx⟩ := hx
+  have hres := settle_exact (s.advance.forAll State.tick) U h c x (hU0.ext hA)
     (by rw [hA.thr]; exact hthr) hc ?_ ?_ ?_ ?_
   · exact hres
   · intro j hj
     rw [hnode j hj]
     rcases (hts j hj).1 with he | ⟨v, he⟩ <;> rw [he]
-    · exact agg_first_head (hl0 j hj) j (hU.lt j hj)
-    · exact agg_first_head (hl0 j hj) j (hU.lt j hj)
+    · exact hx j hj
+    · exact hx j hj
   · intro j hj
     rw [hnode j hj, hA.n, hA.thr]
+    have hef := exact_first (n := s.n) (thr := s.thr) (d := (s.advance.node j).setTick c) (hU.up j hj) (hst.head j hj)
+      (hst.clock j hj) rfl (hst.pend j hj) (hst.stale j hj) j
     rcases (hts j hj).1 with he | ⟨v, he⟩ <;> rw [he]
-    · exact exact_first (hl0 j hj) j
-    · exact (exact_first (hl0 j hj) j).setSync v
+    · exact hef
+    · exact hef.setSync v
   · intro m hm hd hcn
     rw [hmsgs, hst.msgs, List.nil_append] at hm
     obtain ⟨i, hi, hmi⟩ := List.mem_flatMap.mp hm
@@ -1669,5 +1693,89 @@ theorem c05_catchup (s : State) (U : List Nat) (h c : Nat) (hthr : s.thr ≤ U.l
     have : Ext s.advance s.fairTick := Ext.trans (ext_forAll _ _ ext_tick) (ext_settle _)
     rw [this.thr]; exact hthr
   exact chain_catchN U c (c - h - 1) s.fairTick (h + 1) hthr' h1 (by omega)
+
+
+/-! ### rejoin -/
+
+/-- **Rejoin.** Node `i` of `U` was down and is restarted (a new Handler on the same store, then `Catchup`); the other
+members of the healthy side all store `H`, node `i` stores at most `H`, and `H` is below the round `c` the clocks are
+about to show. Then the sync launched by `Catchup` brings `i` to exactly `H`, and in the next fair round every member
+of `U` — whose size ≥ thr counts `i` — stores `H + 1`: the partial of the rejoined node is counted (with |U| = thr it
+is needed: `c05_rejoin_needed`). -/
+theorem c05_rejoin (s : State) (U : List Nat) (i H c : Nat)
+    (hi : i ∈ U) (hdown : (s.node i).up = false)
+    (hU : Side (s.restart i) U) (hthr : s.thr ≤ U.length)
+    (hpeer : ∃ j ∈ U, j ≠ i)
+    (hothers : ∀ j ∈ U, j ≠ i → (s.node j).head = H) (hile : (s.node i).head ≤ H)
+    (hclk : ∀ j ∈ U, (s.node j).clock + 1 = c) (hc : H < c)
+    (hq : Quiet (s.restart i) U H) :
+    (((s.restart i).pull i).node i).head = H ∧
+    ∀ j ∈ U, H + 1 ≤ ((((s.restart i).pull i).fairTick).node j).head := by
+  have hri : ((s.restart i).node i).head = (s.node i).head ∧ ((s.restart i).node i).clock = (s.node i).clock ∧
+      ((s.restart i).node i).syncTo = (s.node i).clock + 1 ∧ ((s.restart i).node i).up = true := by
+    simp [State.restart, hdown, Gen.catchupSyncAhead]
+  have hrj : ∀ j, j ≠ i → (s.restart i).node j = s.node j := by
+    intro j hj; simp [State.restart, hdown, setNode_node, hj]
+  have hrthr : (s.restart i).thr = s.thr := by simp [State.restart, hdown]
+  -- the best peer of i holds exactly H
+  have hmph : (s.restart i).maxPeerHead i = H := by
+    apply Nat.le_antisymm
+    · apply maxPeerHead_le
+      intro m hm hok
+      simp only [State.peerOk, Bool.and_eq_true, bne_iff_ne, ne_eq] at hok
+      have hmU : m ∈ U := hU.closed i hi m hm hok.1.1.2 (Or.inr hok.1.2)
+      rw [hrj m hok.1.1.1, hothers m hmU hok.1.1.1]
+      exact Nat.le_refl _
+    · obtain ⟨j, hj, hji⟩ := hpeer
+      have hok : (s.restart i).peerOk i j = true := by
+        simp [State.peerOk, hji, hU.up j hj, hU.conn i hi j hj, hU.conn j hj i hi]
+      have := maxPeerHead_ge (s.restart i) i j (hU.lt j hj) hok
+      rw [hrj j hji, hothers j hj hji] at this
+      exact this
+  have hci := hclk i hi
+  have ha : (((s.restart i).pull i).node i).head = H := by
+    unfold State.pull
+    have hne : (s.node i).clock + 1 ≠ 0 := by omega
+    have hf : Gen.syncFilled ((s.node i).clock + 1) (s.node i).head = false := by
+      simp [Gen.syncFilled]; omega
+    simp only [hri.2.2.2, hri.2.2.1, hri.1, Bool.not_true, Bool.false_eq_true, if_false, hne, hf, hmph]
+    by_cases hle : H ≤ (s.node i).head
+    · simp only [hle, if_true, setNode_same, setSync_head, hri.1]; omega
+    · simp only [hle, if_false, setNode_same, setSync_head, appendTo_head, hri.1]
+      omega
+  refine ⟨ha, ?_⟩
+  -- the next fair round: step progress with i among the signers
+  have hE : Ext (s.restart i) ((s.restart i).pull i) := ext_pull _ _
+  have hpj : ∀ j, j ≠ i → ((s.restart i).pull i).node j = s.node j := by
+    intro j hj
+    rw [← hrj j hj]
+    rcases pull_cases (s.restart i) i with he | he | ⟨_, _, v, he⟩ <;> rw [he]
+    · exact setNode_other _ _ _ _ hj
+    · exact setNode_other _ _ _ _ hj
+  apply c05_step_progress ((s.restart i).pull i) U H c (hU.ext hE) (by rw [hE.thr, hrthr]; exact hthr)
+  · intro j hj
+    by_cases hji : j = i
+    · subst hji; exact ha
+    · rw [hpj j hji]; exact hothers j hj hji
+  · intro j hj
+    rw [hE.clock j]
+    by_cases hji : j = i
+    · subst hji; rw [hri.2.1]; exact hci
+    · rw [hrj j hji]; exact hclk j hj
+  · exact hc
+  · refine ⟨?_, ?_⟩
+    · intro m hm hd hcn
+      rw [(pull_frame _ _).2.2.2] at hm
+      rw [hE.conn] at hcn
+      exact hq.1 m hm hd hcn
+    · intro j hj r k hk
+      by_cases hji : j = i
+      · subst hji
+        rcases pull_cases (s.restart j) j with he | he | ⟨_, _, v, he⟩ <;> rw [he] at hk
+        · exact hq.2 j hj r k hk
+        · simp only [setNode_same, setSync_held] at hk; exact hq.2 j hj r k hk
+        · simp only [setNode_same, setSync_held, appendTo_held, Bool.and_eq_true] at hk
+          exact hq.2 j hj r k hk.2
+      · rw [hpj j hji, ← hrj j hji] at hk; exact hq.2 j hj r k hk
 
 end Drand.Net
